@@ -26,6 +26,7 @@ import (
 	"github.com/apache/skywalking-banyandb/banyand/internal/verif/wl"
 	"github.com/apache/skywalking-banyandb/banyand/measure"
 	"github.com/apache/skywalking-banyandb/banyand/stream"
+	"github.com/apache/skywalking-banyandb/banyand/trace"
 	"github.com/apache/skywalking-banyandb/pkg/bus"
 	"github.com/apache/skywalking-banyandb/pkg/verif/simcore"
 	"github.com/apache/skywalking-banyandb/pkg/verif/simos"
@@ -36,11 +37,12 @@ func TestSim(t *testing.T) {
 	simcore.Main(t, "C19", []simcore.Scenario{
 		{Name: "measure-snapshot", Weight: 3, Run: func(e *simcore.Env, tp *simcore.Tape) { run(e, tp, newMeasureEng) }},
 		{Name: "stream-snapshot", Weight: 2, Run: func(e *simcore.Env, tp *simcore.Tape) { run(e, tp, newStreamEng) }},
+		{Name: "trace-snapshot", Weight: 2, Run: func(e *simcore.Env, tp *simcore.Tape) { run(e, tp, newTraceEng) }},
 	})
 }
 
 // ---------------------------------------------------------------------------------------------
-// engine abstraction (measure / stream)
+// engine abstraction (measure / stream / trace)
 
 type row struct {
 	series string
@@ -57,12 +59,14 @@ type answer struct {
 }
 
 type engine interface {
-	kind() string // directory / catalog name: "measure" or "stream"
+	kind() string // directory / catalog name: "measure", "stream" or "trace"
 	catalog() commonv1.Catalog
 	group() string
 	shards() int
 	describe() string
 	flags(flushSec, maxMerge int) []string
+	// eagerFlags: what "merge eagerly" (parts of any size ratio) means for the engine; nil = the engine has no such switch.
+	eagerFlags() []string
 	install(repo *simmeta.Repo)
 	boot(repo *simmeta.Repo, dir string, flags []string) (*simnode.Node, error)
 	// gen draws a batch, registers it with the model and returns its rows and the function sending it.
@@ -99,6 +103,7 @@ func (g *measureEng) describe() string {
 func (g *measureEng) flags(flushSec, maxMerge int) []string {
 	return []string{fmt.Sprintf("--measure-flush-timeout=%ds", flushSec), fmt.Sprintf("--measure-max-merge-parts=%d", maxMerge)}
 }
+func (g *measureEng) eagerFlags() []string     { return []string{"--measure-min-merge-multiplier=1"} }
 func (g *measureEng) install(repo *simmeta.Repo) { g.s.Install(repo) }
 func (g *measureEng) boot(repo *simmeta.Repo, dir string, flags []string) (*simnode.Node, error) {
 	return simnode.Boot(repo, dir, simnode.Engines{Measure: true}, flags)
@@ -183,6 +188,7 @@ func (g *streamEng) describe() string {
 func (g *streamEng) flags(flushSec, maxMerge int) []string {
 	return []string{fmt.Sprintf("--stream-flush-timeout=%ds", flushSec), fmt.Sprintf("--stream-max-merge-parts=%d", maxMerge)}
 }
+func (g *streamEng) eagerFlags() []string      { return []string{"--stream-min-merge-multiplier=1"} }
 func (g *streamEng) install(repo *simmeta.Repo) { g.s.Install(repo) }
 func (g *streamEng) boot(repo *simmeta.Repo, dir string, flags []string) (*simnode.Node, error) {
 	return simnode.Boot(repo, dir, simnode.Engines{Stream: true}, flags)
@@ -240,6 +246,203 @@ func (g *streamEng) query(n *simnode.Node, withModel bool) (*answer, string, str
 
 func (g *streamEng) segments(n *simnode.Node) ([]storage.VerifC19Seg, error) {
 	return stream.VerifC19Segments(n.Stream, g.s.Group)
+}
+
+// traceEng: the trace engine. A "row" is a span (attributed by its unique write id tag), its "series" is the trace id
+// (the shard of a span is a function of its trace id, so (day, trace id) is a sound refinement of the table, as
+// (day, series) is for the other two engines). A batch holds spans of 1-6 traces, old and new ones, so that traces
+// grow over several batches, parts and segments. "Read everything" = ask for every trace id ever generated.
+type traceEng struct {
+	s       *wl.TraceSchema
+	m       *wl.TraceModel
+	ids     []string
+	version uint64
+	minTs   int64
+	// uniform: every batch of the run has the same number of spans with equally sized bodies. The merge policy only
+	// merges parts of similar size (the engine has no --trace-min-merge-multiplier), so such runs merge often.
+	// hot (implies uniform): all traffic is "now" (timestamps within the last second) and every batch belongs to one
+	// of two long-running traces, so that batch after batch lands in the same table.
+	uniform     bool
+	hot         bool
+	uniformN    int
+	uniformBody int
+}
+
+func newTraceEng(tp *simcore.Tape) engine {
+	s := wl.GenTraceSchema(tp, wl.TraceSchemaOpts{MaxShards: 2})
+	g := &traceEng{s: s, m: wl.NewTraceModel(s), version: 1, minTs: 1 << 62}
+	g.m.TolerateTag = func(string) bool { return true } // value fidelity is judged by C13/C01
+	shape := tp.Weighted(2, 1, 2)
+	g.uniform, g.hot = shape >= 1, shape == 2
+	g.uniformN = tp.Range(1, 12)
+	g.uniformBody = 40 * tp.Range(0, 5)
+	return g
+}
+
+func (g *traceEng) kind() string              { return "trace" }
+func (g *traceEng) catalog() commonv1.Catalog { return commonv1.Catalog_CATALOG_TRACE }
+func (g *traceEng) group() string             { return g.s.Group }
+func (g *traceEng) shards() int               { return int(g.s.Shards) }
+func (g *traceEng) describe() string {
+	u := "varied"
+	if g.uniform {
+		u = fmt.Sprintf("uniform(%d spans x %d bytes)", g.uniformN, g.uniformBody)
+	}
+	if g.hot {
+		u += "+hot"
+	}
+	return fmt.Sprintf("trace shards=%d tags=%v dur-rule=%v ts-rule=%v batches=%s", g.s.Shards, g.s.Tags, g.s.DurRuleTags, g.s.TsRule, u)
+}
+
+func (g *traceEng) flags(flushSec, maxMerge int) []string {
+	return []string{fmt.Sprintf("--trace-flush-timeout=%ds", flushSec), fmt.Sprintf("--trace-max-merge-parts=%d", maxMerge)}
+}
+func (g *traceEng) eagerFlags() []string       { return nil }
+func (g *traceEng) install(repo *simmeta.Repo) { g.s.Install(repo) }
+func (g *traceEng) boot(repo *simmeta.Repo, dir string, flags []string) (*simnode.Node, error) {
+	// the package's two process-global semaphores are sized by GOMAXPROCS in production: a fixed size here, so that a
+	// run is the same at every GOMAXPROCS (seen as a determinism mismatch: a merge waiting for the only slot at GOMAXPROCS=1)
+	simnode.TraceMergeConcurrency, simnode.TraceSamplerSlots = 4, 4
+	defer func() { simnode.TraceMergeConcurrency, simnode.TraceSamplerSlots = 0, 0 }()
+	return simnode.Boot(repo, dir, simnode.Engines{Trace: true}, flags)
+}
+
+func (g *traceEng) gen(tp *simcore.Tape, baseMs, spanMs int64, batchNo int) ([]row, func(n *simnode.Node) error) {
+	n := g.uniformN
+	if !g.uniform {
+		switch tp.Weighted(3, 4, 2) {
+		case 0:
+			n = tp.Range(1, 3)
+		case 1:
+			n = tp.Range(4, 20)
+		default:
+			n = tp.Range(21, 60)
+		}
+	}
+	// the traces of this batch: known ones (value 0) or new ones
+	var batchIDs []string
+	nIDs := tp.Range(1, 6)
+	if g.hot {
+		nIDs, spanMs = 1, min(spanMs, 1000)
+	}
+	for i := 0; i < nIDs; i++ {
+		if g.hot && len(g.ids) >= 2 {
+			batchIDs = append(batchIDs, g.ids[tp.Choose(2)])
+			continue
+		}
+		if !g.hot && len(g.ids) > 0 && tp.Bool(1, 2) {
+			batchIDs = append(batchIDs, g.ids[len(g.ids)-1-tp.Choose(len(g.ids))])
+			continue
+		}
+		id := fmt.Sprintf("t%03d-%x", len(g.ids), uint16(tp.U64()))
+		g.ids = append(g.ids, id)
+		batchIDs = append(batchIDs, id)
+	}
+	spans := make([]*wl.Span, 0, n)
+	out := make([]row, 0, n)
+	for i := 0; i < n; i++ {
+		id := batchIDs[tp.Choose(len(batchIDs))]
+		ts := baseMs - int64(tp.Choose(int(spanMs)+1))
+		sp := g.m.NewSpan(tp, id, ts, false, true)
+		if g.uniform {
+			sp.Payload = append([]byte(fmt.Sprintf("payload-of-w%08d/", sp.Wid)), wl.Blob(g.uniformBody, int(sp.Wid))...)
+		}
+		sp.Batch = batchNo
+		spans = append(spans, sp)
+		out = append(out, row{series: id, wid: sp.Wid, ts: ts})
+		g.minTs = min(g.minTs, ts)
+	}
+	reqs := g.m.ToRequests(spans, g.version)
+	g.version += uint64(len(reqs))
+	g.m.Ack(spans) // registered at generation (see measureEng.gen)
+	return out, func(n *simnode.Node) error {
+		resps, err := n.WriteTrace(reqs)
+		if err != nil {
+			return err
+		}
+		if len(resps) != len(reqs) {
+			return fmt.Errorf("%d responses for %d requests", len(resps), len(reqs))
+		}
+		for _, r := range resps {
+			if r.GetStatus() != "STATUS_SUCCEED" {
+				return fmt.Errorf("status %s", r.GetStatus())
+			}
+		}
+		return nil
+	}
+}
+
+var traceTags = os.Getenv("C19_TRACE_TAGS") == "1"
+
+func (g *traceEng) query(n *simnode.Node, withModel bool) (*answer, string, string, error) {
+	a := &answer{canon: map[int64]string{}, ts: map[int64]int64{}}
+	if len(g.ids) == 0 {
+		return a, "", "", nil
+	}
+	var proj []string
+	for _, t := range g.s.Tags {
+		proj = append(proj, t.Name)
+	}
+	lo := min(g.minTs, time.Now().UnixMilli()) - dayMs
+	resp, err := n.QueryTrace(g.s.QueryByTraceIDs(g.ids, lo, time.Now().UnixMilli()+3*dayMs, proj))
+	if err != nil {
+		return nil, "", "", err
+	}
+	garbage := int64(0)
+	for _, tr := range resp.GetTraces() {
+		for _, sp := range tr.GetSpans() {
+			a.n++
+			w, ts := int64(0), int64(-1)
+			var b strings.Builder
+			fmt.Fprintf(&b, "trace=%s span-id=%s body=%x", tr.GetTraceId(), sp.GetSpanId(), sp.GetSpan())
+			for _, t := range sp.GetTags() {
+				switch t.GetKey() {
+				case wl.TraceWidTag:
+					w = t.GetValue().GetInt().GetValue()
+				case wl.TraceTsTag:
+					ts = t.GetValue().GetTimestamp().AsTime().UnixMilli()
+				}
+				// value fidelity of the other tags is C01's subject (C19_TRACE_TAGS=1 compares them too: debugging aid)
+				if traceTags {
+					fmt.Fprintf(&b, " %s=%s", t.GetKey(), wl.CanonTag(t.GetValue()))
+					if ref := g.m.SpanByWid(w); ref != nil && ref.Tags[t.GetKey()] != nil && wl.CanonTag(ref.Tags[t.GetKey()]) != wl.CanonTag(t.GetValue()) {
+						fmt.Fprintf(&b, "(written: %s)", wl.CanonTag(ref.Tags[t.GetKey()]))
+					}
+				}
+			}
+			if ref := g.m.SpanByWid(w); ref == nil || ref.TraceID != tr.GetTraceId() || ref.SpanID != sp.GetSpanId() || string(ref.Payload) != string(sp.GetSpan()) {
+				// not attributable to a written span: a key no write ever had, so that the caller reports it as garbage
+				garbage--
+				w = garbage
+			}
+			if _, seen := a.canon[w]; seen {
+				a.dup = w
+			}
+			a.canon[w] = b.String()
+			a.ts[w] = ts
+		}
+	}
+	if withModel {
+		got, cls, msg := g.m.Collect(resp.GetTraces())
+		if cls != "" {
+			return a, cls, msg, nil
+		}
+		for _, id := range g.ids {
+			if cls, msg = g.m.CompareWhole(id, got[id]); cls != "" {
+				return a, cls, msg, nil
+			}
+		}
+		for _, id := range simcore.SortedKeys(got) {
+			if len(g.m.Traces[id]) == 0 {
+				return a, "trace-never-written", fmt.Sprintf("trace %q returned but never written", id), nil
+			}
+		}
+	}
+	return a, "", "", nil
+}
+
+func (g *traceEng) segments(n *simnode.Node) ([]storage.VerifC19Seg, error) {
+	return trace.VerifC19Segments(n.Trace, g.s.Group)
 }
 
 // ---------------------------------------------------------------------------------------------
@@ -329,7 +532,7 @@ func scenario(e *simcore.Env, tp *simcore.Tape, g engine) {
 	flushSec := []int{1, 3, 10}[tp.Choose(3)]
 	flags := g.flags(flushSec, tp.Range(2, 6))
 	if tp.Bool(1, 2) { // merge eagerly: parts of any size ratio
-		flags = append(flags, "--"+g.kind()+"-min-merge-multiplier=1")
+		flags = append(flags, g.eagerFlags()...)
 	}
 	flushed := time.Duration(2*flushSec+1) * time.Second
 	dirA := filepath.Join(e.Dir, "a")
@@ -758,6 +961,17 @@ func scenario(e *simcore.Env, tp *simcore.Tape, g engine) {
 	maxSteps := []int{150, 400, 1000, 40}[tp.Choose(4)]
 	var burstActor string
 	burstLeft := 0
+	// side-tape knob: once chosen, the request keeps running until it is parked inside a table's file snapshot (between
+	// pinning the table's parts and writing the manifest), where the choice among "advance", writers and loops is made anew
+	snapRunsToTable, toTable := tp.Side().Bool(1, 2), false
+	inTable := func(ps []*simcore.Parked) bool {
+		for _, p := range ps {
+			if p.Actor == "snap" && (strings.HasPrefix(p.Site, "snapshot.go:TakeFileSnapshot#") || strings.HasPrefix(p.Site, "snapshot.go:createMetadata#")) {
+				return true
+			}
+		}
+		return false
+	}
 	snapStarted, interference := false, false
 	racedWriter, racedMaint := false, false
 	racing.Store(true)
@@ -803,6 +1017,9 @@ func scenario(e *simcore.Env, tp *simcore.Tape, g engine) {
 		}
 		// run-until-yield bursts: the actor chosen last keeps running for a tape-chosen number of gates
 		c := -1
+		if toTable && burstLeft > 0 && burstActor == "snap" && inTable(parked) {
+			burstLeft, toTable = 0, false // arrived
+		}
 		if burstLeft > 0 {
 			for i, p := range parked {
 				if p.Actor == burstActor {
@@ -821,6 +1038,9 @@ func scenario(e *simcore.Env, tp *simcore.Tape, g engine) {
 			}
 			if c < len(parked) {
 				burstActor, burstLeft = parked[c].Actor, []int{0, 3, 12, 50}[tp.Weighted(3, 3, 2, 1)]
+				if toTable = snapRunsToTable && burstActor == "snap" && !inTable(parked); toTable {
+					burstLeft = 300
+				}
 			}
 		}
 		e.Step()
